@@ -8,7 +8,6 @@ NA = {
 "C03":"pure; the only nearby nondeterminism (address-ordered set of candidate classes) affects message wording only and cannot be steered by a scheduler",
 "C04":"pure; tag injection is an input space, the constructor-call log is a deterministic function of the document",
 "C05":"pure function of (model, value); dump-then-load has no in-flight state and no I/O in the statement",
-"C06":"pure projection of the object; the 'repeated dumps / object untouched' clause is exercised by C11's history oracle but not claimed here",
 "C07":"pure function of (value, indent, ensure_ascii); natural decider is exhaustive shape enumeration (model checking), excluded by this task's technique; sink side is decided under C12",
 "C09":"universal statement over strings; automata equivalence / enumeration, no schedule, fault or history in it",
 "C10":"hook-calling protocol is a deterministic function of (hierarchy, document); its one fault clause (SeasoningError -> RecognitionError) is covered by C08's injection",
@@ -38,10 +37,15 @@ CHECKS["C11"] = dict(engine="world", category="exploration", design_ref="DESIGN.
   text="Seeded worlds: 1-3 class-model specs (same-named classes across specs), shared load/dump/JSON functions, K in 1..4 client threads with operation lists (loads from several source kinds, dumps to several sinks, function creation, plain-PyYAML probes, gc), and faults attached to operations (callback exception, cancellation at the n-th yield point, read/write error). Each world runs in a child forked from a pristine worker under a baton scheduler: real threads, pre-empted only at sys.settrace line/opcode events in yatiml, PyYAML and generated classes and at seam calls, the schedule tape deciding every switch (PCT-like change points, geometric run lengths, fixed quanta, and schedules derived from a profiling run that park a thread right after it wrote call-outliving state). Oracles: every finished operation equals the same operation in a fresh pristine child in which only its own function exists; PyYAML's and yatiml's base registries equal their import-time fingerprint at quiescence and at every context switch; user classes and dumped objects are unchanged; no deadlock.",
   note="Trusted: pre-emption at source-line (knob: bytecode) granularity, C code atomic as under the GIL; canonical outcome comparison (value and callback trace, or exception class and message-token multiset); the pristine fork is a fresh process. A seeded sample of worlds and schedules, not an enumeration.",
   technique="deterministic simulation: seeded baton scheduler over real threads (sys.settrace yield points) with fault injection, history compared with an isolated fresh-process reference; Hypothesis as seeded plan generator/shrinker")
+CHECKS["C06"] = dict(engine="dumphist", category="exploration", design_ref="DESIGN.md §4a",
+  text="History clause of C06 only: 'Dumping never modifies the object graph, and repeated dumps of the same object give identical text.' The C11 simulator (pristine-fork worlds, baton scheduler, fault injection) is driven with a workload of dump functions (YAML and JSON, to strings, StringIO, duck sinks and paths on the sim mount) and 1-4 shared objects that are dumped 2-8 times per thread by 1-3 threads, with failing sweeteners / _yatiml_attributes, failing sinks and cancellations attached to some dumps. Oracles: the graph of every shared object (values and sharing structure) after every dump equals its graph before the first one; every dump equals the same dump in a fresh pristine process (so any two dumps of one object with the same function and options give identical text, whatever happened in between or concurrently).",
+  note="Scope: the projection clauses of C06 (well-formed, tag-free, ordered, faithful) are pure functions of the value and are not decided. Trusted as for C11: line/bytecode pre-emption granularity, canonical comparison, pristine fork as fresh process. A seeded sample of worlds and schedules.",
+  technique="deterministic simulation: seeded operation histories and thread schedules on shared objects with fault injection, compared with an isolated fresh-process reference and with object-graph snapshots; Hypothesis as seeded plan generator/shrinker")
 ENGINES = {
  "cbfault": ("sim/engines/cbfault.py", ["C08"], "callback-seam fault enumeration over generated class models"),
  "iosim": ("sim/engines/iosim.py", ["C12"], "simulated raw device / duck streams: chunk schedules and I/O fault enumeration"),
  "nodemodel": ("sim/engines/nodemodel.py", ["C14"], "operation histories on yatiml.Node vs ordered-map reference model"),
+ "dumphist": ("sim/engines/dumphist.py", ["C06"], "the C11 world simulator with a repeated-dump workload on shared objects; object-graph and fresh-process oracles"),
  "world": ("sim/engines/world.py", ["C11"], "baton-passing thread scheduler + call histories vs isolated fresh-process reference"),
 }
 def main():
